@@ -442,8 +442,28 @@ def next_pow2(n):
   return 1 << max(0, (n - 1).bit_length())
 
 
+_KEY_KIND = ['raw']
+
+
 def key_array(words):
-  return jnp.array(words, dtype=jnp.uint32)
+  raw = jnp.array(words, dtype=jnp.uint32)
+  if _KEY_KIND[0] == 'typed':
+    # the same key as a new-style typed key array (jax.random.key / wrap_key_data)
+    return jax.random.wrap_key_data(raw)
+  return raw
+
+
+def with_key_kind(run):
+  """Runs `run(case)` with the key representation the case names; with a typed
+  key the rotated values must be those of the raw uint32 key (same key data)."""
+  @functools.wraps(run)
+  def wrapped(case):
+    _KEY_KIND[0] = case.get('key_kind', 'raw')
+    try:
+      return run(case)
+    finally:
+      _KEY_KIND[0] = 'raw'
+  return wrapped
 
 
 def make_leaf(leaf):
@@ -548,6 +568,11 @@ def run_rotation(case):
   keep = np.asarray(arr).copy()
   key = key_array(case['key'])
   y, sh = guarded('rotation', wh.structured_rotation, arr, key)
+  if _KEY_KIND[0] == 'typed':
+    y_raw, _ = guarded('rotation', wh.structured_rotation, arr,
+                       jnp.array(case['key'], dtype=jnp.uint32))
+    require(np.array_equal(np.asarray(y), np.asarray(y_raw)),
+            'rotation:typed_key_rotates_differently_from_its_raw_key')
   ctx = check_rotated(x64, shape, q, y, sh, 'leaf')
   z = guarded('inverse', wh.inverse_structured_rotation, y, key, sh)
   check_restored(x64, shape, ctx, z, 'leaf')
@@ -626,6 +651,12 @@ def run_pytree(case):
   require(structure.num_leaves == len(descs), 'harness:leaf_order')
   key = key_array(case['key'])
   rot, shapes = guarded('pytree_rotation', wh.structured_rotation_pytree, tree, key)
+  if _KEY_KIND[0] == 'typed':
+    raw_rot, _ = guarded('pytree_rotation', wh.structured_rotation_pytree, tree,
+                         jnp.array(case['key'], dtype=jnp.uint32))
+    require(all(np.array_equal(np.asarray(a), np.asarray(b)) for a, b in zip(
+        jax.tree_util.tree_leaves(rot), jax.tree_util.tree_leaves(raw_rot))),
+            'pytree:typed_key_rotates_differently_from_its_raw_key')
   require(jax.tree_util.tree_structure(rot) == structure, 'pytree:rotated_structure_differs',
           f'{jax.tree_util.tree_structure(rot)} vs {structure}')
   require(jax.tree_util.tree_structure(shapes) == structure, 'pytree:shapes_structure_differs',
@@ -890,7 +921,8 @@ def rotation_strategy(draw, tier):
   shapes = SHAPES_QUICK if tier == 'quick' else SHAPES_THOROUGH
   leaf = draw(leaf_strategy(shapes, 9 if tier == 'quick' else 12))
   key = draw(_key)
-  return {'leaf': leaf, 'key': key, 'key2': draw(other_key(key))}
+  return {'leaf': leaf, 'key': key, 'key2': draw(other_key(key)),
+          'key_kind': draw(st.sampled_from(['raw', 'raw', 'raw', 'typed']))}
 
 
 _names = st.sampled_from(['w', 'b', 'linear', 'conv', 'a', 'z', 'embed'])
@@ -933,7 +965,8 @@ def tree_strategy(draw, tier):
 @st.composite
 def pytree_strategy(draw, tier):
   key = draw(_key)
-  return {'tree': draw(tree_strategy(tier)), 'key': key, 'key2': draw(other_key(key))}
+  return {'tree': draw(tree_strategy(tier)), 'key': key, 'key2': draw(other_key(key)),
+          'key_kind': draw(st.sampled_from(['raw', 'raw', 'raw', 'typed']))}
 
 
 # ---------------------------------------------------- other random-bit layout
@@ -1051,7 +1084,7 @@ CHECKS = [
           labels=transform_labels, nontrivial=transform_nontrivial,
           budget={'quick': 1000, 'thorough': 20000}, time_share=1.0,
           doc='T(a x + b y) = a T(x) + b T(y) for dyadic scalars; T(T(x)) = n x'),
-    Check(name='rotation_roundtrip', run=run_rotation, strategy=rotation_strategy,
+    Check(name='rotation_roundtrip', run=with_key_kind(run_rotation), strategy=rotation_strategy,
           labels=rotation_labels, nontrivial=rotation_nontrivial,
           budget={'quick': 1200, 'thorough': 30000}, time_share=3.0,
           doc='structured_rotation / inverse_structured_rotation on one array of any shape: '
@@ -1070,7 +1103,7 @@ CHECKS = [
           budget={'quick': 32, 'thorough': 480}, time_share=0.8,
           doc='six trees per case: rotated values and recorded shapes are bit-identical '
               'between this process and a fresh interpreter with another PYTHONHASHSEED'),
-    Check(name='rotation_pytree', run=run_pytree, strategy=pytree_strategy,
+    Check(name='rotation_pytree', run=with_key_kind(run_pytree), strategy=pytree_strategy,
           labels=pytree_labels, nontrivial=rotation_nontrivial,
           budget={'quick': 600, 'thorough': 12000}, time_share=1.5,
           doc='structured_rotation_pytree / inverse_structured_rotation_pytree: tree structure '
